@@ -29,8 +29,8 @@ LargeInit ==
        /\ LET g == Given(fmt, LFrame, 1, 0) IN
           /\ cur = <<g>> /\ file = <<g>>
           /\ h = <<[a |-> "wopen", app |-> FALSE, reuse |-> FALSE], [a |-> "wwrite", fr |-> g], [a |-> "wclose"]>> \o
-                 (IF top THEN <<[a |-> "readtop", exp |-> TopStored(fmt, g)]>>
-                  ELSE <<[a |-> "ropen", rn |-> LargeN, reuse |-> FALSE],
+                 (IF top THEN <<[a |-> "readtop", exp |-> TopStored(fmt, g), reuse |-> FALSE, src |-> "new"]>>
+                  ELSE <<[a |-> "ropen", rn |-> LargeN, reuse |-> FALSE, src |-> "new"],
                          [a |-> "rfirst", err |-> FALSE, ret |-> TRUE, k |-> 1, exp |-> Stored(fmt, g)],
                          [a |-> "rnext", err |-> FALSE, ret |-> FALSE, k |-> 0],
                          [a |-> "rclose"]>>)
